@@ -115,3 +115,33 @@ def install_locks(module):
     shim.RLock = lambda: VLock(True)
     module.threading = shim
     return shim
+
+
+class Hung(BaseException):
+    """The call did not return within the harness's allowance (an endless loop in the code under test is observed, not waited for)."""
+
+
+class deadline:
+    """with deadline(seconds): ...   raises Hung in the main thread when the block runs longer (pure-Python loops are interruptible; used by the explorers'
+    adapters, which run in the main thread of their worker process).  The SIGALRM handler is installed once per process; arming costs one setitimer call."""
+    _installed = False
+
+    def __init__(self, seconds):
+        self.seconds = seconds
+
+    @staticmethod
+    def _fire(signum, frame):
+        raise Hung()
+
+    def __enter__(self):
+        import signal
+        if not deadline._installed:
+            signal.signal(signal.SIGALRM, deadline._fire)
+            deadline._installed = True
+        signal.setitimer(signal.ITIMER_REAL, self.seconds)
+        return self
+
+    def __exit__(self, *exc):
+        import signal
+        signal.setitimer(signal.ITIMER_REAL, 0)
+        return False
